@@ -328,6 +328,14 @@ def evalLookups (ρ : Env) (heads : List (String × Head)) (tm : Name) : List St
     let hs ← evalLookups ρ heads tm rest
     pure (h :: hs)
 
+/-- `List[x]`: typing insists that `x` is a type (callable); a dict, a scalar *instance* or
+    `Undefined` is not -/
+def typeParamOK : Binding → Bool
+  | .builtin (.std _) => false
+  | .builtin .undefined => false
+  | .builtin _ => true
+  | _ => false
+
 /-- `interfaces=` / `types=`: `[]` or `lambda: cast(List[elemCls], [tm["k"], …])`, every element an
     instance of the class the constructor insists on (`want`) -/
 def evalNames (ρ : Env) (heads : List (String × Head)) (want : Kind) : NamesE → Except PyErr (List Name)
@@ -339,8 +347,7 @@ def evalNames (ρ : Env) (heads : List (String × Head)) (want : Kind) : NamesE 
     let hs ← evalLookups ρ heads tm keys
     require (c == .builtin .cast) (.typeError "callee is not typing.cast")
     require (l == .builtin .typingList) (.typeError "subscripted object is not typing.List")
-    require (match e with | .builtin (.std _) => false | .builtin .undefined => false | .builtin _ => true | _ => false)
-      (.typeError "Parameters to generic types must be types.")
+    require (typeParamOK e) (.typeError "Parameters to generic types must be types.")
     require (hs.all fun h => h.1 == want) (.typeError "must be specified as a collection of … instances")
     pure (hs.map (·.2))
 
